@@ -180,9 +180,10 @@ class Pool(object):
     """One real EventListenerPool with n real listener Subprocess objects."""
 
     def __init__(self, options, name, nlisteners, buffer_size=10, pool_events=(), handler=None,
-                 priority=999, proc_priority=999, group_class=None):
+                 priority=999, proc_priority=999, group_class=None, proc_prefix=None):
         self.options = options
-        self.pconfigs = [listener_config(options, '%s%d' % (name, i), proc_priority) for i in range(nlisteners)]
+        # process names are unique within a group only: proc_prefix lets different pools use the same names
+        self.pconfigs = [listener_config(options, '%s%d' % (proc_prefix or name, i), proc_priority) for i in range(nlisteners)]
         self.gconfig = EventListenerPoolConfig(options, name, priority, self.pconfigs, buffer_size,
                                                list(pool_events), handler or sdisp.default_handler)
         # real EventListenerPool (subscribes itself); group_class may be a recording subclass
